@@ -33,9 +33,9 @@ Lemma self_ref_entries_out_of_fuel :
   entries (get_trie (open_unchecked w_self_ref)) = OutOfFuel.
 Proof. vm_compute. reflexivity. Qed.
 
-(* not an artefact of the stated fuel: a thousand times the fuel is not enough either *)
+(* not an artefact of the stated fuel: forty times the fuel is not enough either *)
 Lemma self_ref_entries_out_of_fuel_big :
-  entries_leaves false 10000 (get_trie (open_unchecked w_self_ref)) = OutOfFuel.
+  entries_leaves false 4000 (get_trie (open_unchecked w_self_ref)) = OutOfFuel.
 Proof. vm_compute. reflexivity. Qed.
 
 Lemma self_ref_rejected : open w_self_ref = Err 2.
@@ -64,3 +64,42 @@ Lemma cyclic_is_a_file :
   exists bytes, enc_file (mkInfo [] [] [] [] []) (enc_recs w_cyclic_recs) [] = Some bytes /\
                 open_unchecked bytes = Ok w_cyclic /\ open bytes = Err 2.
 Proof. eexists. split; [vm_compute; reflexivity|]. split; vm_compute; reflexivity. Qed.
+
+Definition w_cyclic_bytes : list N :=
+  match enc_file (mkInfo [] [] [] [] []) (enc_recs w_cyclic_recs) [] with Some b => b | None => [] end.
+
+Definition all_bytes (l : list N) : bool := forallb (fun b => b <? 256) l.
+Lemma all_bytes_ok l : all_bytes l = true -> Forall (fun b => b < 256) l.
+Proof.
+  unfold all_bytes. rewrite forallb_forall, Forall_forall. intros H x Hx. apply N.ltb_lt. auto.
+Qed.
+
+Lemma unvalidated_entries_panic :
+  exists bytes t, Forall (fun b => b < 256) bytes /\ open_unchecked bytes = Ok t /\ entries t = Panic 358.
+Proof.
+  exists w_zero_syl, (get_trie (open_unchecked w_zero_syl)).
+  split; [apply all_bytes_ok; vm_compute; reflexivity|]. split; vm_compute; reflexivity.
+Qed.
+
+Lemma unvalidated_entries_hang :
+  exists bytes t, Forall (fun b => b < 256) bytes /\ open_unchecked bytes = Ok t /\ entries t = OutOfFuel /\
+                  entries_leaves false 4000 t = OutOfFuel.
+Proof.
+  exists w_self_ref, (get_trie (open_unchecked w_self_ref)).
+  split; [apply all_bytes_ok; vm_compute; reflexivity|]. split; [vm_compute; reflexivity|].
+  split; vm_compute; reflexivity.
+Qed.
+
+Lemma unvalidated_lookup_exponential :
+  exists bytes t, Forall (fun b => b < 256) bytes /\ open_unchecked bytes = Ok t /\
+    snd (lookup_cost t (repeat 11859 12) 0 STANDARD) = 8190 /\
+    snd (lookup_cost t (repeat 11859 16) 0 STANDARD) = 131070.
+Proof.
+  exists w_cyclic_bytes, w_cyclic.
+  split; [apply all_bytes_ok; vm_compute; reflexivity|]. split; [vm_compute; reflexivity|].
+  exact cyclic_lookup_exponential.
+Qed.
+
+Lemma witnesses_rejected :
+  open w_self_ref = Err 2 /\ open w_zero_syl = Err 2 /\ open w_cyclic_bytes = Err 2.
+Proof. split; [|split]; vm_compute; reflexivity. Qed.
